@@ -166,6 +166,34 @@ def main(p):
                                            reply=rlabel))
         out['nontrivial'] += [f'{cell["id"]}|sync|{f}' for f in sorted(seen_forms)]
 
+    # a second client instance on its own channel must use *its* channel (no state shared between transports)
+    second = {}
+    for cell in a['cells']:
+        svc = cell['service']
+        if isinstance(clients.get(svc), BaseException) or svc not in clients:
+            continue
+        if svc not in second:
+            second[svc] = lib.sync(svc)
+        c2, ch2 = second[svc]
+        ch1 = clients[svc][1]
+        meth = getattr(c2, cell['py'], None)
+        if meth is None:
+            continue
+        form, vlabel, reqs, rlabel, reply, Dreq, Dresp = next(iter(combos(cell)))
+        ch1.log.clear(); ch2.log.clear()
+        ch1.script = script_of(cell, reply); ch2.script = script_of(cell, reply)
+        try:
+            ret = meth(**build_args(cell, form, reqs))
+            if cell['arity'].endswith('_stream') and not VOID(cell):
+                list(ret)
+        except BaseException as e:
+            fail(cell, 'sync', 'second-client', vlabel, rlabel, 'exception', probelib.exc_info(e))
+            continue
+        out['calls'] += 1
+        if len(ch2.log) != 1 or ch1.log:
+            fail(cell, 'sync', 'second-client', vlabel, rlabel, 'wrong-channel',
+                 f'{len(ch2.log)} calls on the second client\'s channel, {len(ch1.log)} on the first client\'s')
+
     # ------------------------------------------------------------- asyncio
     async def amain():
         aclients = {}
@@ -212,6 +240,40 @@ def main(p):
                     seen_forms.add(form)
                 check_call(cell, 'asyncio', form, vlabel, rlabel, list(ch.log), reqs, ret, reply, Dreq, Dresp)
             out['nontrivial'] += [f'{cell["id"]}|asyncio|{f}' for f in sorted(seen_forms)]
+        second = {}
+        for cell in a['cells']:
+            svc = cell['service']
+            if isinstance(aclients.get(svc), BaseException) or svc not in aclients:
+                continue
+            if svc not in second:
+                second[svc] = lib.aio(svc)
+            c2, ch2 = second[svc]
+            ch1 = aclients[svc][1]
+            meth = getattr(c2, cell['py'], None)
+            if meth is None:
+                continue
+            form, vlabel, reqs, rlabel, reply, Dreq, Dresp = next(iter(combos(cell)))
+            ch1.log.clear(); ch2.log.clear()
+            ch1.script = script_of(cell, reply); ch2.script = script_of(cell, reply)
+            try:
+                ret = meth(**build_args(cell, form, reqs))
+                if inspect.isawaitable(ret):
+                    ret = await ret
+                if cell['arity'].endswith('_stream') and not VOID(cell):
+                    [x async for x in ret]
+                elif inspect.isawaitable(ret):
+                    await ret
+                for _ in range(3):
+                    await asyncio.sleep(0)
+            except BaseException as e:
+                fail(cell, 'asyncio', 'second-client', vlabel, rlabel, 'exception', probelib.exc_info(e))
+                continue
+            out['calls'] += 1
+            if VOID(cell) and cell['arity'].endswith('_stream'):
+                continue   # D22: nothing is sent at all
+            if len(ch2.log) != 1 or ch1.log:
+                fail(cell, 'asyncio', 'second-client', vlabel, rlabel, 'wrong-channel',
+                     f'{len(ch2.log)} calls on the second client\'s channel, {len(ch1.log)} on the first client\'s')
 
     asyncio.run(amain())
     return out
